@@ -2,7 +2,7 @@
    Full-strength statement: C11 (see DESIGN.md section 7) (Cluster/Statements.v). Proved so far: the theorems below; what is
    not yet proved is decided on every run by the lock-step co-simulation (model = implementation on every
    explored schedule) together with the monitors run on the implementation's own observations. *)
-From RaftV Require Import Cluster.Statements Proofs.RVSpec Proofs.AESpec Proofs.SnapSpec.
+From RaftV Require Import Cluster.Statements Proofs.RVSpec Proofs.AESpec Proofs.SnapSpec Proofs.ChunkSpec.
 Open Scope N_scope.
 
 (* becomeFollower (every term change, every step-down) never touches the commit index, the applied index, the
@@ -37,3 +37,18 @@ Proof.
          {| is_leader := 2; is_term := 1; is_lii := 5; is_lit := 1; is_conf := config0; is_offset := 0; is_bytes := []; is_done := true |}.
   split; [cbn; lia|reflexivity].
 Qed.
+
+(* Chunk exactness for chunks that belong to the snapshot being received (every state): a chunk with the index of the
+   partially received file and the expected offset is appended byte for byte and acknowledged with offset + length;
+   nothing else changes.  (A chunk of an OLDER snapshot at the same offset is accepted too: open finding D10.) *)
+Theorem C11_chunk_of_the_snapshot_being_received_is_appended_exactly : forall now n q p,
+  n_role n = Follower -> is_term q = n_term n ->
+  n_lii n < is_lii q -> n_applied n < is_lii q ->
+  n_partial n = Some p -> s_index p = is_lii q ->
+  is_offset q = N.of_nat (length (s_data p)) -> is_done q = false ->
+  let r := h_install_snapshot now n q in
+  n_partial (fst r) = Some {| s_index := s_index p; s_term := s_term p; s_conf := s_conf p; s_data := s_data p ++ is_bytes q |} /\
+  snd r = Some {| isr_term := n_term n; isr_written := is_offset q + N.of_nat (length (is_bytes q)) |} /\
+  n_snaps (fst r) = n_snaps n /\ n_log (fst r) = n_log n /\ n_fsm (fst r) = n_fsm n.
+Proof. exact is_chunk_appended. Qed.
+Print Assumptions C11_chunk_of_the_snapshot_being_received_is_appended_exactly.
